@@ -374,7 +374,28 @@ func (s *ledgerSim) opOverlap() {
 	for _, id := range ids {
 		cids = append(cids, cipher.SHA256(id))
 	}
-	_, _ = n.v.GetUnspentOutputs(cids)
+	// the query that overlaps the write: a lookup by id, the balances of all addresses, their transaction history, or
+	// the verification of a pending transaction (each reads several buckets inside one snapshot)
+	switch t.Pick("overlap-read", 4, 2, 2, 2) {
+	case 0:
+		_, _ = n.v.GetUnspentOutputs(cids)
+	case 1:
+		_, _ = n.v.GetBalanceOfAddresses(cAddrs(s.w.allAddrs()))
+	case 2:
+		_, _, _ = n.v.GetTransactions([]visor.TxFilter{visor.NewAddrsFilter(cAddrs(s.w.allAddrs()))}, visor.AscOrder, nil)
+	case 3:
+		if hs := n.m.PoolHashes(); len(hs) > 0 {
+			tx := n.m.Pool[hs[t.Int("overlap-pool-txn", len(hs))]].Txn
+			ct := cTxn(&tx)
+			_, _, _ = n.v.VerifyTxnVerbose(&ct, transaction.TxnSigned)
+		} else {
+			_, _ = n.v.GetUnspentOutputs(cids)
+		}
+	}
+	if !fired {
+		// the chosen query opened no read transaction on this node's database
+		_, _ = n.v.GetUnspentOutputs(cids)
+	}
 	for _, id := range ids {
 		_, _ = n.v.GetUnspentOutputs([]cipher.SHA256{cipher.SHA256(id)})
 	}
